@@ -93,6 +93,9 @@ extern "C" int LLVMFuzzerTestOneInput(const uint8_t *data, size_t size) {
     {"2001:db8::9 v6only.example", mk6(9, 0), "v6only.example"}, {"10.1.1.3 hosty", mk4(10, 1, 1, 3), "hosty"}, {"10.9.9.9 www.example.test", mk4(10, 9, 9, 9), "www.example.test"}};
   std::vector<const HostLine *> hosts; std::string hosts_text;
   int nh = s.below(4); for (int i = 0; i < nh; i++) { const HostLine *h = &HL[s.below(6)]; hosts.push_back(h); hosts_text += h->text; hosts_text += "\n"; }
+  // file shape (derived from the hash of the choices so far, so that no extra input is consumed and old replays decode as before):
+  // a comment and an empty line in front, and - one case in four - no newline behind the last entry (hosts(5) does not require one)
+  if (nh) { unsigned shape = (unsigned)(s.h >> 13) & 15; if (shape & 4) hosts_text = "# generated\n\n" + hosts_text; if ((shape & 3) == 3) { hosts_text.pop_back(); verif_class("hosts_file_without_final_newline"); } }
   if (nh) { MemFile f(hosts_text); int r = evdns_base_load_hosts(w.dns, f.path); CHECK(r == 0, "harness/setup", "load_hosts=%d", r); }
 
   // ---- the request
